@@ -138,7 +138,10 @@ Definition rLibNodes := 75%N.      Definition rLibScenes := 76%N.    Definition 
 Definition rFloats9 := 78%N.       Definition rFloats16 := 79%N.     Definition rFloats4 := 80%N.
 Definition rFloats3 := 81%N.       Definition rInstGeom := 82%N.     Definition rBindMat := 83%N.
 Definition rBindTC := 84%N.        Definition rInstMat := 85%N.      Definition rBindVI := 86%N.
-Definition rVisualScene := 87%N.   Definition rScene := 88%N.
+Definition rVisualScene := 87%N.   Definition rScene := 88%N.        Definition rDirectional := 89%N.
+Definition rNCNameText := 90%N.    Definition rBlinn := 91%N.        Definition rColor4T := 92%N.
+Definition rTextureT := 93%N.      Definition rFloatSid := 94%N.     Definition rLines := 95%N.
+Definition rInstEffect := 96%N.
 
 Definition persp (l : list item) := kids [] (l ++ [one a_znear rFloat; one a_zfar rFloat]).
 
@@ -192,8 +195,9 @@ Definition emit_rules : list (N * grule) := [
   (* light.py: *Light.__init__/save *)
   (rLibLights, kids idname [one a_light rLight; star a_light rLight]);
   (rLight, kids idname [one a_technique_common rLightTC]);
-  (rLightTC, kids [] [IOne [(a_ambient, rAmbient); (a_directional, rAmbient); (a_point, rPoint); (a_spot, rSpot)]]);
+  (rLightTC, kids [] [IOne [(a_ambient, rAmbient); (a_directional, rDirectional); (a_point, rPoint); (a_spot, rSpot)]]);
   (rAmbient, kids [] [one a_color rColor3]);
+  (rDirectional, kids [] [one a_color rColor3]);
   (rPoint, kids [] [one a_color rColor3; maybe a_constant_attenuation rFloat; maybe a_linear_attenuation rFloat;
                     maybe a_quadratic_attenuation rFloat]);
   (rSpot, kids [] [one a_color rColor3; maybe a_constant_attenuation rFloat; maybe a_linear_attenuation rFloat;
@@ -211,21 +215,27 @@ Definition emit_rules : list (N * grule) := [
   (rNewSampler, kids [req a_sid tNCName] [one a_sampler2D rSampler]);
   (rSurface, kids [req a_type (SEnum [a_2D])] [one a_init_from rIdrefText; maybe a_format rString]);
   (rIdrefText, text [] tNCName);
-  (rSampler, kids [] [one a_source rIdrefText; maybe a_minfilter rFilter; maybe a_magfilter rFilter]);
+  (rNCNameText, text [] tNCName);
+  (rSampler, kids [] [one a_source rNCNameText; maybe a_minfilter rFilter; maybe a_magfilter rFilter]);
   (rFilter, text [] (SEnum filters));
   (rFxTechnique, kids [req a_sid tNCName]
-     [IOne [(a_phong, rPhong); (a_blinn, rPhong); (a_lambert, rLambert); (a_constant, rConstant)]]);
+     [IOne [(a_phong, rPhong); (a_blinn, rBlinn); (a_lambert, rLambert); (a_constant, rConstant)]]);
   (rPhong, kids [] (shader_params [a_emission; a_ambient; a_diffuse; a_specular; a_shininess; a_reflective;
+                                   a_reflectivity; a_transparent; a_transparency; a_index_of_refraction]));
+  (rBlinn, kids [] (shader_params [a_emission; a_ambient; a_diffuse; a_specular; a_shininess; a_reflective;
                                    a_reflectivity; a_transparent; a_transparency; a_index_of_refraction]));
   (rLambert, kids [] (shader_params [a_emission; a_ambient; a_diffuse; a_reflective; a_reflectivity;
                                      a_transparent; a_transparency; a_index_of_refraction]));
   (rConstant, kids [] (shader_params [a_emission; a_reflective; a_reflectivity; a_transparent; a_transparency;
                                       a_index_of_refraction]));
   (rColorOrTex, kids [] [IOne [(a_color, rColor4); (a_texture, rTexture)]]);
-  (rTransparent, kids [opt a_opaque (SEnum [a_A_ONE; a_RGB_ZERO])] [IOne [(a_color, rColor4); (a_texture, rTexture)]]);
-  (rFloatParam, kids [] [one a_float rFloat]);
+  (rTransparent, kids [opt a_opaque (SEnum [a_A_ONE; a_RGB_ZERO])] [IOne [(a_color, rColor4T); (a_texture, rTextureT)]]);
+  (rFloatParam, kids [] [one a_float rFloatSid]);
+  (rFloatSid, text [] SFloat);
   (rColor4, text [] (tFloats 4));
+  (rColor4T, text [] (tFloats 4));
   (rTexture, kids [req a_texture tNCName; req a_texcoord tNCName] []);
+  (rTextureT, kids [req a_texture tNCName; req a_texcoord tNCName] []);
   (* the GOOGLEEARTH double_sided extra of Effect.save and Geometry.save; user-made <extra>s of
      the same shape *)
   (rExtra, kids [] [one a_technique rExtraTech]);
@@ -233,7 +243,8 @@ Definition emit_rules : list (N * grule) := [
   (rLaxLeaf, GRule [] GLax);
   (* material.py: Material *)
   (rLibMaterials, kids idname [one a_material rMaterial; star a_material rMaterial]);
-  (rMaterial, kids idname [one a_instance_effect rInstanceURL]);
+  (rMaterial, kids idname [one a_instance_effect rInstEffect]);
+  (rInstEffect, kids [req a_url tURI] []);
   (rInstanceURL, kids [req a_url tURI] []);
   (* geometry.py: Geometry.__init__/save; source.py; the primitive constructors *)
   (rLibGeometries, kids idname [one a_geometry rGeometry; star a_geometry rGeometry]);
@@ -241,10 +252,10 @@ Definition emit_rules : list (N * grule) := [
   (rMesh, kids [] [IOne [(a_source, rSourceF); (a_source, rSourceN); (a_source, rSourceI)];
                    IStar [(a_source, rSourceF); (a_source, rSourceN); (a_source, rSourceI)];
                    one a_vertices rVertices;
-                   IStar [(a_triangles, rPrimP); (a_lines, rPrimP); (a_polylist, rPolylist); (a_polygons, rPolygons)]]);
-  (rSourceF, kids [opt a_id tNCName] [one a_float_array rFloatArray; one a_technique_common rSourceTC]);
-  (rSourceN, kids [opt a_id tNCName] [one a_Name_array rNameArray; one a_technique_common rSourceTC]);
-  (rSourceI, kids [opt a_id tNCName] [one a_IDREF_array rIdrefArray; one a_technique_common rSourceTC]);
+                   IStar [(a_triangles, rPrimP); (a_lines, rLines); (a_polylist, rPolylist); (a_polygons, rPolygons)]]);
+  (rSourceF, kids [req a_id tNCName] [one a_float_array rFloatArray; one a_technique_common rSourceTC]);
+  (rSourceN, kids [req a_id tNCName] [one a_Name_array rNameArray; one a_technique_common rSourceTC]);
+  (rSourceI, kids [req a_id tNCName] [one a_IDREF_array rIdrefArray; one a_technique_common rSourceTC]);
   (rFloatArray, text [req a_count tUInt; opt a_id tNCName] (SList SFloat 0 None));
   (rNameArray, text [req a_count tUInt; opt a_id tNCName] (SList (SLex lx_Name) 0 None));
   (rIdrefArray, text [req a_count tUInt; opt a_id tNCName] (SList tNCName 1 None));
@@ -254,6 +265,7 @@ Definition emit_rules : list (N * grule) := [
   (rVertices, kids [req a_id tNCName] [one a_input rInputV; star a_input rInputV]);
   (rInputV, kids [req a_semantic tNMTOKEN; req a_source SFragment] []);
   (rPrimP, kids [req a_count tUInt; opt a_material tNCName] [star a_input rInputP; maybe a_p rUInts]);
+  (rLines, kids [req a_count tUInt; opt a_material tNCName] [star a_input rInputP; maybe a_p rUInts]);
   (rPolylist, kids [req a_count tUInt; opt a_material tNCName] [star a_input rInputP; maybe a_vcount rUInts; maybe a_p rUInts]);
   (rPolygons, kids [req a_count tUInt; opt a_material tNCName] [star a_input rInputP; star a_p rUInts]);
   (rInputP, kids [req a_offset tUInt; req a_semantic tNMTOKEN; req a_source SFragment; opt a_set tUInt] []);
